@@ -61,6 +61,14 @@ def make_schema(r, i):
         # part-way - in every process alike - and whatever they leave in the tree must not show in cpp / nop
         decls.append({"kind": "struct", "name": "D%dText" % i, "fields": [{"name": "n", "id": 0, "type": ("u", 8)}, {"name": "lines", "id": 1, "type": ("arr", ("str",), 2)}, {"name": "z", "id": 2, "type": ("u", 8)}]})
         decls.append({"kind": "impl", "protocol": "can", "type": "D%dText" % i, "name": None, "items": [("field", "id", 2040), ("field", "device", ("s", "ecu"))]})
+    # every schema declares an enum of the SAME name (Mode) and a struct field type of the same name (Level), of
+    # another width class each time: whatever a generator remembers per type name belongs to one schema
+    mx = [3, 300, 70000, 1, 255, 256][i % 6]
+    decls.append({"kind": "enum", "name": "Mode", "values": [("ModeOff", 0), ("ModeTop", mx)]})
+    decls.append({"kind": "struct", "name": "Level", "fields": [{"name": "v", "id": 0, "type": ("u", [3, 12, 20, 8, 9, 33][i % 6])}]})
+    decls.append({"kind": "struct", "name": "D%dModeMsg" % i, "fields": [{"name": "m", "id": 0, "type": ("enum", "Mode")}, {"name": "lv", "id": 1, "type": ("struct", "Level")},
+                                                                       {"name": "k", "id": 2, "type": ("u", 4)}]})
+    decls.append({"kind": "impl", "protocol": "can", "type": "D%dModeMsg" % i, "name": None, "items": [("field", "id", 2020), ("field", "device", ("s", "ecu"))]})
     if i % 4 == 0:
         # a CAN message whose flattened signal names collide: nested pos::x / pos::y next to plain pos_x, and an
         # unrolled array arr_0 next to a field written arr_0 (whatever a generator does about the clash, it does
